@@ -2318,6 +2318,7 @@ class Interp:
             # mutation or db write) the shutdown begins.
             kind = "cancel"
             pre = {n: (b.uvv, [(m.uid, m.tok) for m in b.msgs]) for n, b in self.model.boxes.items() if not b.noselect and not b.uncertain}
+            self._pre_names = set(self.model.boxes)  # (the victim's own handler may get as far as updating the model)
             cnt = {"k": 0}
             trig = asyncio.Event()
             prev_hook = self.env.storage_hook
@@ -2424,7 +2425,7 @@ class Interp:
         r = await self.obs.command('LIST "" "*"')
         listed = {("inbox" if n.upper() == "INBOX" else n): a for n, a in self.parse_list(r)}
         # the mailbox list is the one from before the command or the one the completed command gives
-        names_before = set(self.model.boxes)
+        names_before = set(getattr(self, "_pre_names", None) or self.model.boxes)
         names_after = set(names_before)
         vop = victim.get("op")
         if vop == "rename":
